@@ -1,5 +1,6 @@
 """C18 - equality / hash / immutability / pickle contract: generator, implementation runner, emitter."""
 import copy
+import json
 import gallina as G
 import tygen
 from props import c01
@@ -125,8 +126,46 @@ SET_PAIRS = [
 ]
 
 
+STRINGS = ["", "a", "A", "ab", "\u00e9", "e\u0301", "\u212b", "\u00c5", "A\u030a", "\ufb03", "ffi", "\u1e9b\u0323", "\u1e9b\u0323"[::-1], "\U0001f600", " ", "a "]
+
+
+def gen_value(rng):
+    r = rng.random()
+    if r < 0.45:
+        return {"str": rng.choice(STRINGS)}
+    if r < 0.8:
+        return {"num": rng.choice([0, 1, -1, 2, 3, 10 ** 20]), "den": rng.choice([1, 1, 2, 3, 7])}
+    return {"bool": rng.random() < 0.5}
+
+
+def gen_values(rng):
+    if rng.random() < 0.6:
+        a = gen_value(rng)
+        b = dict(a) if rng.random() < 0.3 else gen_value(rng)
+        return {"kind": "values", "a": a, "b": b}
+    key = rng.choice(["str", "num"])
+
+    def elems():
+        out = []
+        while len(out) < rng.choice([1, 2, 3]):
+            v = gen_value(rng)
+            if key in v:
+                out.append(v)
+        return out
+    a = elems()
+    b = list(reversed(a)) if rng.random() < 0.4 else elems()
+    return {"kind": "valuesets", "a": a, "b": b}
+
+
 def generate(rng, tier):
     cases, streams = [], []
+    for x in STRINGS:
+        for y in STRINGS:
+            if x < y and (x.encode() != y.encode()):
+                import unicodedata
+                if unicodedata.normalize("NFC", x) == unicodedata.normalize("NFC", y) or len(cases) < 12:
+                    cases.append({"kind": "values", "a": {"str": x}, "b": {"str": y}})
+                    streams.append("targeted")
     for a, b in SET_PAIRS:
         cases.append({"kind": "sets", "a": a, "b": b})
         streams.append("targeted")
@@ -201,8 +240,11 @@ def generate(rng, tier):
             for t_ in c01.postorder(a) + c01.postorder(b):
                 t_["raw"] = False
             cases.append({"kind": "sets", "a": a, "b": b})
+        elif r == 10 and i % 24 == 10:
+            cases.append(gen_values(rng))
         elif r == 10:
-            cases.append({"kind": "alias", "type": tygen.gen_composite(rng, rng.choice([1, 2]), names, small_caps=True)})
+            cases.append({"kind": "alias", "type": tygen.gen_composite(rng, rng.choice([1, 2]), names, small_caps=True), "service": rng.random() < 0.4,
+                          "first": rng.choice(["fields", "attributes", "constants", "fields_except_padding"])})
         else:
             cases.append({"kind": "pickle", "type": tygen.gen_composite(rng, rng.choice([1, 2, 3]), names, small_caps=True), "service": rng.random() < 0.3})
         streams.append("random")
@@ -222,6 +264,7 @@ def layout_obs(t):
     b = t.bit_length_set
     ob = [str(t), type(t).__name__, t.alignment_requirement, b.min, b.max, sorted(b % 32), sorted(b % 7)]
     if isinstance(t, pydsdl.CompositeType):
+        ob += [t.short_name, t.root_namespace, t.full_namespace, list(t.name_components), list(t.namespace_components)]
         ob += [t.extent, t.full_name, tuple(t.version), t.deprecated, t.fixed_port_id, [str(x) for x in t.attributes],
                [(f.name, sorted(o % 8), o.min, o.max) for f, o in t.iterate_fields_with_offsets()]]
     return ob
@@ -235,6 +278,7 @@ def _run_impl_raw(cases):
     from pydsdl import _expression
 
     out = []
+    xproc = []
     for case in cases:
         try:
             k = case["kind"]
@@ -251,6 +295,36 @@ def _run_impl_raw(cases):
                 out.append(pair_obs(mk(case["a"]), mk(case["b"])))
             elif k == "sets":
                 out.append(pair_obs(tygen.build_bls(case["a"]), tygen.build_bls(case["b"])))
+            elif k in ("values", "valuesets"):
+                def val(v):
+                    if "str" in v:
+                        return _expression.String(v["str"])
+                    if "bool" in v:
+                        return _expression.Boolean(v["bool"])
+                    return _expression.Rational(Fraction(v["num"], v["den"]))
+                if k == "values":
+                    out.append(pair_obs(val(case["a"]), val(case["b"])))
+                else:
+                    out.append(pair_obs(_expression.Set([val(v) for v in case["a"]]), _expression.Set([val(v) for v in case["b"]])))
+            elif k == "alias" and case.get("service"):
+                # a freshly built service type: the FIRST access of an accessor must already be a copy
+                def sec(suffix, fields):
+                    return pydsdl.StructureType(name="ns.Svc." + suffix, version=pydsdl.Version(1, 0), attributes=fields, deprecated=False,
+                                                fixed_port_id=None, source_file_path=Path("ns/Svc.1.0.dsdl"), has_parent_service=True)
+                svc = pydsdl.ServiceType(sec("Request", [pydsdl.Field(tygen.build(case["type"]), "x")]), sec("Response", []), fixed_port_id=None)
+                fail = None
+                order = [case.get("first", "fields")] + ["attributes", "fields", "constants", "fields_except_padding", "name_components"]
+                for acc in order:
+                    lst = getattr(svc, acc)
+                    n0 = len(lst)
+                    lst.append("garbage")
+                    again = getattr(svc, acc)
+                    if len(again) != n0 or any(x == "garbage" for x in again):
+                        fail = "mutating the list returned by the first access of ServiceType.%s changed the object" % acc
+                        break
+                if not fail and ([str(f) for f in svc.fields] != ["ns.Svc.Request.1.0 request", "ns.Svc.Response.1.0 response"] or svc.alignment_requirement != 8):
+                    fail = "service type changed after mutating accessor results"
+                out.append({"ok": True, "pred_fail": fail} if fail else {"ok": True})
             elif k == "alias":
                 t = tygen.build(case["type"])
                 before = layout_obs(t)
@@ -258,12 +332,15 @@ def _run_impl_raw(cases):
                 for acc in ("attributes", "fields", "constants", "fields_except_padding", "name_components", "namespace_components"):
                     lst = getattr(t, acc)
                     if isinstance(lst, list):
+                        n0 = len(lst)
                         lst.append("garbage")
                         lst.reverse()
-                        del lst[:]
                         again = getattr(t, acc)
-                        if any(x == "garbage" for x in again):
+                        if len(again) != n0 or any(x == "garbage" for x in again):
                             fail = "mutating the list returned by %s changed the object" % acc
+                        del lst[:]
+                        if len(getattr(t, acc)) != n0:
+                            fail = "clearing the list returned by %s changed the object" % acc
                 if t.inner_type is not t:
                     t.inner_type.attributes.clear()
                 after = layout_obs(t)
@@ -282,7 +359,10 @@ def _run_impl_raw(cases):
                 else:
                     obj = t
                     probe = layout_obs
-                clone = pickle.loads(pickle.dumps(obj))
+                _ = hash(obj)  # the object has been used as a set/dict key before it is pickled
+                blob = pickle.dumps(obj)
+                xproc.append((len(out), case, blob))
+                clone = pickle.loads(blob)
                 fail = None
                 if not (clone == obj) or clone != obj or hash(clone) != hash(obj):
                     fail = "pickle round trip is not equal / hashes differently"
@@ -291,7 +371,57 @@ def _run_impl_raw(cases):
                 out.append({"ok": True, "pred_fail": fail} if fail else {"ok": True})
         except Exception as ex:  # pylint: disable=broad-except
             out.append({"error": type(ex).__name__, "text": str(ex)[:300]})
+    # pickles made here are loaded in ANOTHER interpreter with another hash seed and compared with objects built there
+    if xproc:
+        import base64
+        import os
+        import subprocess
+        import sys
+        import tempfile
+        fd, path = tempfile.mkstemp(dir=os.environ.get("VERIF_SCRATCH"))
+        with os.fdopen(fd, "w") as f:
+            json.dump([[i, c, base64.b64encode(b).decode()] for i, c, b in xproc], f)
+        env = dict(os.environ, PYTHONHASHSEED=str((int(os.environ.get("PYTHONHASHSEED", "0") or 0) + 12345) % 4000000000))
+        r = subprocess.run([sys.executable, "-B", "-c", "import sys; sys.path[:0]=%r; from props import c18; c18.consume(%r)" % (sys.path[:3], path)],
+                           env=env, capture_output=True, text=True, timeout=600)
+        os.unlink(path)
+        verdicts = json.loads(r.stdout.strip().splitlines()[-1]) if r.returncode == 0 and r.stdout.strip() else None
+        for j, (i, _c, _b) in enumerate(xproc):
+            bad = "the consumer process failed: %s" % (r.stderr[-300:]) if verdicts is None else verdicts[j]
+            if bad and "pred_fail" not in out[i] and "error" not in out[i]:
+                out[i] = {"ok": True, "pred_fail": bad}
     return out
+
+
+def consume(path):
+    """Runs in a second interpreter (different PYTHONHASHSEED): unpickled objects must equal, hash like and be found in a
+    set of objects built freshly from the same description."""
+    import base64
+    import pickle
+    import sys
+    from pathlib import Path
+    import pydsdl
+    res = []
+    for _i, case, b64 in json.load(open(path)):
+        try:
+            t = tygen.build(case["type"])
+            if case.get("service"):
+                def sec(suffix):
+                    return pydsdl.StructureType(name="ns.Svc." + suffix, version=pydsdl.Version(1, 0), attributes=[pydsdl.Field(t, "x")] if suffix == "Request" else [],
+                                                deprecated=False, fixed_port_id=None, source_file_path=Path("ns/Svc.1.0.dsdl"), has_parent_service=True)
+                fresh = pydsdl.ServiceType(sec("Request"), sec("Response"), fixed_port_id=None)
+            else:
+                fresh = t
+            clone = pickle.loads(base64.b64decode(b64))
+            if not (clone == fresh and fresh == clone):
+                res.append("an object unpickled in another process is not equal to a freshly built one")
+            elif hash(clone) != hash(fresh) or fresh not in {clone} or clone not in {fresh}:
+                res.append("an object unpickled in another process is equal to a freshly built one but hashes differently")
+            else:
+                res.append(None)
+        except Exception as ex:  # pylint: disable=broad-except
+            res.append("consumer raised %s: %s" % (type(ex).__name__, str(ex)[:200]))
+    sys.stdout.write("\n" + json.dumps(res) + "\n")
 
 
 def emit_pobs(o):
@@ -331,6 +461,19 @@ def emit(case, obs):
         return "[PConsts (%s, %s) (%s, %s) %s]" % (emit_field(case["a"]), emit_cval(norm(case["a"][2])), emit_field(case["b"]), emit_cval(norm(case["b"][2])), emit_pobs(obs))
     if k == "sets":
         return "[PSets %s %s %s]" % (c01.emit_op(case["a"]), c01.emit_op(case["b"]), emit_pobs(obs))
+    if k in ("values", "valuesets"):
+        from fractions import Fraction
+
+        def ev(v):
+            if "str" in v:
+                return "(CStr %s)" % G.codepoints(v["str"])
+            if "bool" in v:
+                return "(CBool %s)" % G.b(v["bool"])
+            f = Fraction(v["num"], v["den"])
+            return "(CRat %s %s)" % (G.z(f.numerator), G.z(f.denominator))
+        if k == "values":
+            return "[PValues %s %s %s]" % (ev(case["a"]), ev(case["b"]), emit_pobs(obs))
+        return "[PValueSets %s %s %s]" % (G.lst([ev(v) for v in case["a"]]), G.lst([ev(v) for v in case["b"]]), emit_pobs(obs))
     return "[]"
 
 
